@@ -155,7 +155,7 @@ pub struct ThreadCase {
 pub static CHILD_PROBLEMS: AtomicU64 = AtomicU64::new(0);
 
 fn threads_bin() -> String {
-    format!("{}/harness/target/release/c15_threads", VERIF_DIR)
+    format!("{}/harness/target/release/c15_threads", verif_dir())
 }
 
 pub fn check_threads(c: &ThreadCase) -> CheckResult {
